@@ -130,6 +130,172 @@ def opTotalLoads : Op K := fun n a =>
   outLoads ny (totalLoads relief fuel pm (loadsView a 0) (loadsView a o1) (loadsView a o2) (loadsView a o3)
     (loadsView a (o3 + 6 * ny)))
 
+/-- ints: nx ny sym projected ; floats: mesh → b_pts[nx-1,ny,3] widths[ny-1] lengths_spanwise[ny-1]
+    lengths[ny] normals[nx-1,ny-1,3] S_ref chords[ny]   (order of add_output in geometry.py) -/
+def opVLMGeometry : Op K := fun n a =>
+  let nx := n[0]!; let ny := n[1]!; let sym := flag n 2; let proj := flag n 3
+  let m := mesh a 0 ny
+  let o := outMesh #[] (nx - 1) ny (VLMGeometry.bPts m)
+  let o := outVec o (ny - 1) (VLMGeometry.widths nx m)
+  let o := outVec o (ny - 1) (VLMGeometry.lengthsSpanwise nx m)
+  let o := outVec o ny (VLMGeometry.lengths nx m)
+  let o := outMesh o (nx - 1) (ny - 1) (VLMGeometry.normals m)
+  let o := o.push (VLMGeometry.sRef nx ny sym proj m)
+  outVec o ny (VLMGeometry.chords nx m)
+
+/-- ints: nx ny sym ; floats: alpha beta sec_forces[nx-1,ny-1,3] → L D -/
+def opLiftDrag : Op K := fun n a =>
+  let nx := n[0]!; let ny := n[1]!; let sym := flag n 2
+  let r := liftDrag ((nx - 1) * (ny - 1)) sym (at_ a 0) (at_ a 1) (pts a 2)
+  #[r.1, r.2]
+
+/-- floats: S_ref L D v rho → CL1 CDi -/
+def opCoeffs : Op K := fun _ a =>
+  #[coeff (at_ a 1) (at_ a 4) (at_ a 3) (at_ a 0), coeff (at_ a 2) (at_ a 4) (at_ a 3) (at_ a 0)]
+
+/-- floats: CL0 CL1 → CL -/
+def opTotalLift : Op K := fun _ a => #[totalLift (at_ a 1) (at_ a 0)]
+
+/-- floats: CD0 CDi CDv CDw → CD -/
+def opTotalDrag : Op K := fun _ a => #[totalDrag (at_ a 1) (at_ a 2) (at_ a 3) (at_ a 0)]
+
+/-- ints: nx ny ; floats: alpha sec_forces[nx-1,ny-1,3] widths[ny-1] chords[ny] v rho → Cl[ny-1] -/
+def opLiftCoeff2D : Op K := fun n a =>
+  let nx := n[0]!; let ny := n[1]!
+  let o1 := 1 + 3 * (nx - 1) * (ny - 1)
+  let o2 := o1 + (ny - 1)
+  let o3 := o2 + ny
+  outVec #[] (ny - 1) (liftCoeff2D nx (at_ a 0) (at_ a (o3 + 1)) (at_ a o3) (mesh a 1 (ny - 1)) (vec a o1) (vec a o2))
+
+/-- ints: ny withWave sym ; floats: ka Mach CL lengths_spanwise[ny-1] widths[ny-1] chords[ny] t_over_c[ny-1] → CDw -/
+def opWaveDrag : Op K := fun n a =>
+  let ny := n[0]!; let ww := flag n 1; let sym := flag n 2
+  let o1 := 3; let o2 := o1 + (ny - 1); let o3 := o2 + (ny - 1); let o4 := o3 + ny
+  #[WaveDrag.cdw ny ww sym (at_ a 0) (at_ a 1) (at_ a 2) (vec a o4) (vec a o2) (vec a o1) (vec a o3)]
+
+/-- ints: ny withViscous sym ; floats: k_lam c_max_t re Mach S_ref widths[ny-1] lengths_spanwise[ny-1]
+    lengths[ny] t_over_c[ny-1] → CDv -/
+def opViscousDrag : Op K := fun n a =>
+  let ny := n[0]!; let wv := flag n 1; let sym := flag n 2
+  let o1 := 5; let o2 := o1 + (ny - 1); let o3 := o2 + (ny - 1); let o4 := o3 + ny
+  #[ViscousDrag.cdv ny wv sym (at_ a 0) (at_ a 1) (at_ a 2) (at_ a 3) (at_ a 4) (vec a o1) (vec a o2) (vec a o3) (vec a o4)]
+
+/-- ints: ns ; floats: per surface (CL CD S_ref) … then v rho S_ref_total → L D CL CD -/
+def opTotalLiftDrag : Op K := fun n a =>
+  let ns := n[0]!
+  let r := totalLiftDrag ns (fun s => at_ a (3*s)) (fun s => at_ a (3*s+1)) (fun s => at_ a (3*s+2))
+    (at_ a (3*ns+1)) (at_ a (3*ns)) (at_ a (3*ns+2))
+  #[r.1, r.2.1, r.2.2.1, r.2.2.2]
+
+/-- ints: ns ; floats: S_ref per surface → S_ref_total -/
+def opSumAreas : Op K := fun n a => #[sumAreas n[0]! (vec a 0)]
+
+/-- ints: ns ; floats: structural_mass[ns] fuelburn W0 load_factor CL S_ref_total v rho → L_equals_W total_weight -/
+def opEquilibrium : Op K := fun n a =>
+  let ns := n[0]!
+  let r := equilibrium ns (vec a 0) (at_ a ns) (at_ a (ns+1)) (at_ a (ns+2)) (at_ a (ns+3)) (at_ a (ns+4))
+    (at_ a (ns+5)) (at_ a (ns+6))
+  #[r.1, r.2]
+
+/-- ints: ns ; floats: structural_mass[ns] CT CL CD speed_of_sound R Mach W0 → fuelburn -/
+def opBreguet : Op K := fun n a =>
+  let ns := n[0]!
+  #[breguetFuelburn ns (vec a 0) (at_ a ns) (at_ a (ns+1)) (at_ a (ns+2)) (at_ a (ns+3)) (at_ a (ns+4))
+    (at_ a (ns+5)) (at_ a (ns+6))]
+
+/-- ints: ns ; floats: per surface (structural_mass, cg_location[3]) … total_weight fuelburn W0 load_factor empty_cg[3] → cg[3] -/
+def opCenterOfGravity : Op K := fun n a =>
+  let ns := n[0]!
+  let o := 4 * ns
+  pushV3 #[] (centerOfGravity ns (fun s => at_ a (4*s)) (fun s => pts a (4*s+1) 0) (at_ a o) (at_ a (o+1))
+    (at_ a (o+2)) (at_ a (o+3)) (pts a (o+4) 0))
+
+/-- floats: rho mu v → re -/
+def opReynolds : Op K := fun _ a => #[reynolds (at_ a 0) (at_ a 2) (at_ a 1)]
+
+/-- ints: ns, then (nx ny sym) per surface ; floats: per surface b_pts widths chords S_ref sec_forces ; cg[3] v rho S_ref_total
+    → CM[3] M[3] -/
+def opMomentCoefficient : Op K := fun n a =>
+  let ns := n[0]!
+  let (surfs, off) := Id.run do
+    let mut l : List (MomentCoefficient.Surf K) := []
+    let mut off := 0
+    for s in [0:ns] do
+      let nx := n[1 + 3*s]!; let ny := n[2 + 3*s]!; let sym := flag n (3 + 3*s)
+      let oB := off
+      let oW := oB + 3 * (nx - 1) * ny
+      let oC := oW + (ny - 1)
+      let oS := oC + ny
+      let oF := oS + 1
+      l := l ++ [{ nx := nx, ny := ny, sym := sym, bPts := mesh a oB ny, widths := vec a oW, chords := vec a oC,
+                   sRef := at_ a oS, F := mesh a oF (ny - 1) }]
+      off := oF + 3 * (nx - 1) * (ny - 1)
+    return (l, off)
+  let cg := pts a off 0
+  let v := at_ a (off + 3); let rho := at_ a (off + 4); let st := at_ a (off + 5)
+  pushV3 (pushV3 #[] (MomentCoefficient.cm surfs cg rho v st)) (MomentCoefficient.moment surfs cg)
+
+def dispView (a : Array K) (off : Nat) : Nat → Disp K := fun j =>
+  ⟨⟨at_ a (off + 6*j), at_ a (off + 6*j+1), at_ a (off + 6*j+2)⟩,
+   ⟨at_ a (off + 6*j+3), at_ a (off + 6*j+4), at_ a (off + 6*j+5)⟩⟩
+
+/-- ints: ny ; floats: E G nodes[ny,3] radius[ny-1] disp[ny,6] → vonmises[ny-1,2] -/
+def opVonMisesTube : Op K := fun n a =>
+  let ny := n[0]!
+  let nodes := pts a 2
+  let radius := vec a (2 + 3*ny)
+  let disp := dispView a (2 + 3*ny + (ny - 1))
+  Id.run do
+    let mut o : Array K := #[]
+    for e in [0:ny-1] do
+      let r := vonMisesTube (at_ a 0) (at_ a 1) nodes radius disp e
+      o := (o.push r.1).push r.2
+    return o
+
+/-- ints: ny ; floats: E G tssf nodes[ny,3] disp[ny,6] Qz J A_enc spar_thickness htop hbottom hfront hrear (each [ny-1])
+    → vonmises[ny-1,4] -/
+def opVonMisesWingbox : Op K := fun n a =>
+  let ny := n[0]!; let ne := ny - 1
+  let nodes := pts a 3
+  let disp := dispView a (3 + 3*ny)
+  let o := 3 + 9*ny
+  let sec : Nat → WingboxSec K := fun e =>
+    ⟨at_ a (o + e), at_ a (o + ne + e), at_ a (o + 2*ne + e), at_ a (o + 3*ne + e), at_ a (o + 4*ne + e),
+     at_ a (o + 5*ne + e), at_ a (o + 6*ne + e), at_ a (o + 7*ne + e)⟩
+  Id.run do
+    let mut out : Array K := #[]
+    for e in [0:ne] do
+      let r := vonMisesWingbox (at_ a 0) (at_ a 1) (at_ a 2) nodes sec disp e
+      out := (((out.push r.1).push r.2.1).push r.2.2.1).push r.2.2.2
+    return out
+
+/-- ints: N ; floats: sigma rho vm[N] → failure -/
+def opFailureKS : Op K := fun n a =>
+  #[failureKS (n[0]! - 1) (at_ a 0) (at_ a 1) (vec a 2)]
+
+/-- ints: N ; floats: sigma vm[N] → failure[N] -/
+def opFailureExact : Op K := fun n a =>
+  outVec #[] n[0]! (fun i => failureExact (at_ a 0) (at_ a (1 + i)))
+
+/-- ints: ne ; floats: radius[ne] thickness[ne] → A Iy Iz J (each [ne]) -/
+def opSectionPropertiesTube : Op K := fun n a =>
+  let ne := n[0]!
+  let f := fun e => sectionPropertiesTube (at_ a e) (at_ a (ne + e))
+  let o := outVec #[] ne (fun e => (f e).1)
+  let o := outVec o ne (fun e => (f e).2.1)
+  let o := outVec o ne (fun e => (f e).2.2.1)
+  outVec o ne (fun e => (f e).2.2.2)
+
+/-- ints: ne ; floats: thickness[ne] radius[ne] → thickness_intersects[ne] -/
+def opNonIntersectingThickness : Op K := fun n a =>
+  let ne := n[0]!
+  outVec #[] ne (fun e => nonIntersectingThickness (at_ a e) (at_ a (ne + e)))
+
+/-- ints: ny ; floats: disp[ny,6] loads[ny,6] → energy -/
+def opEnergy : Op K := fun n a =>
+  let m := 6 * n[0]!
+  #[energy m (vec a 0) (vec a m)]
+
 def ops : List (String × Op K) := [
   ("ComputeNodes", opComputeNodes),
   ("LoadTransfer", opLoadTransfer),
@@ -143,7 +309,29 @@ def ops : List (String × Op K) := [
   ("FuelVolDelta", opFuelVolDelta),
   ("PointMassLoads", opPointMassLoads),
   ("ThrustLoads", opThrustLoads),
-  ("TotalLoads", opTotalLoads)
+  ("TotalLoads", opTotalLoads),
+  ("VLMGeometry", opVLMGeometry),
+  ("LiftDrag", opLiftDrag),
+  ("Coeffs", opCoeffs),
+  ("TotalLift", opTotalLift),
+  ("TotalDrag", opTotalDrag),
+  ("LiftCoeff2D", opLiftCoeff2D),
+  ("WaveDrag", opWaveDrag),
+  ("ViscousDrag", opViscousDrag),
+  ("TotalLiftDrag", opTotalLiftDrag),
+  ("SumAreas", opSumAreas),
+  ("Equilibrium", opEquilibrium),
+  ("Breguet", opBreguet),
+  ("CenterOfGravity", opCenterOfGravity),
+  ("Reynolds", opReynolds),
+  ("MomentCoefficient", opMomentCoefficient),
+  ("VonMisesTube", opVonMisesTube),
+  ("VonMisesWingbox", opVonMisesWingbox),
+  ("FailureKS", opFailureKS),
+  ("FailureExact", opFailureExact),
+  ("SectionPropertiesTube", opSectionPropertiesTube),
+  ("NonIntersectingThickness", opNonIntersectingThickness),
+  ("Energy", opEnergy)
 ]
 
 end OAS.Driver
